@@ -237,6 +237,17 @@ func genC04Construct(t *rapid.T, g *bq.QGen, u bq.Universe) *bq.Construct {
 				pr.O = bq.TPos{Pred: &p}
 			case k < 5 && !c.De:
 				pr.O = bq.TPos{Blank: gen.Pick(t, []string{"v", "w"}, "tob")}
+			case k < 7:
+				// a predicate-valued object anchored by a time binding: "id"@[?t] (its own
+				// binding, which may differ from the one anchoring the predicate position)
+				if b, ok := pick("?t", "toa"); ok {
+					pr.O = bq.TPos{AnchorID: gen.Pick(t, u.PredIDs, "toaid"), AnchorB: b}
+				} else if b, ok := pick("?o", "tobind0"); ok {
+					pr.O = bq.TPos{Binding: b}
+				} else {
+					n := gen.Pick(t, u.Nodes, "ton0")
+					pr.O = bq.TPos{Node: &n}
+				}
 			default:
 				if b, ok := pick("?o", "tobind"); ok {
 					pr.O = bq.TPos{Binding: b}
